@@ -281,14 +281,16 @@ func parseDataInputTokens(cfg *SuiteConfig, input string) error {
 				default:
 					return fmt.Errorf("unsupported numeric challenge spec %q", tok)
 				}
+			} else {
+				return fmt.Errorf("unsupported numeric challenge spec %q", tok)
 			}
-		case strings.HasPrefix(tokU, "QA"):
+		case strings.HasPrefix(tokU, "QA"), strings.HasPrefix(tokU, "QH"):
+			if len(tokU) != 4 || (tokU[2:] != "08" && tokU[2:] != "10") {
+				return fmt.Errorf("unsupported challenge spec %q", tok)
+			}
 			cfg.IncludeChallenge = true
-			// similar approach for alpha
-			// ...
-		case strings.HasPrefix(tokU, "QH"):
-			cfg.IncludeChallenge = true
-			// ...
+			// the format itself is not parsed yet: such suites are only
+			// usable through the registered names
 		case strings.HasPrefix(tokU, "PSHA"):
 			cfg.IncludePassword = true
 			switch tokU {
